@@ -140,6 +140,9 @@ theorem quote_roundtrip (s : Str) (hs : ∀ c ∈ s, c < 65536) (rest : List Nat
   obtain ⟨items, h1, h2, h3⟩ := scan_goQuote s hs rest
   exact ⟨items, h1, h2, by rw [goCombine_eq items h3, h2]⟩
 
+/-- outside region str_html_escape Go's string escaping IS ES5's Quote, for every string -/
+theorem quote_eq (s : Str) (h : s.any htmlChar = false) : goQuote s = quote s := goQuote_eq s h
+
 /-! ## non-vacuity -/
 
 example : GOK OttoVerif.C06.Spec.exactLib (.arr (.cons (.str [60, 0xD83D, 0xDE00, 10]) (.cons .nil (.cons (.map (.cons [97] (.bool true) .nil)) .nil)))) := by
